@@ -132,6 +132,34 @@ SS_HIST_THOROUGH = [
 ]
 
 
+# configurations of the coverage-guided stage (lib/fuzz.py; clang++-14 + libFuzzer)
+FUZZ_FS = [
+    FSCfg("NTR", "stateful", "less", "s4", "exact", compiler="clang++-14"),
+    FSCfg("TR", "tless", "greater", "v", "amc", compiler="clang++-14"),
+    FSCfg("TC4", "coarse", "less", "f64", compiler="clang++-14"),
+    FSCfg("NTR", "less", "greater", "v", compiler="clang++-14"),
+    FSCfg("TR", "greater", "stateful", "s4", "realloc", compiler="clang++-14"),
+    FSCfg("NTR", "coarse", "greater", "std", "exact", compiler="clang++-14"),
+    FSCfg("int", "coarse", "less", "v", "amc", compiler="clang++-14"),
+    FSCfg("TR", "less", "greater", "s4", "basic", std="c++20", compiler="clang++-14"),
+]
+FUZZ_SS = [
+    SSCfg("NTR", 4, "less", 8, "greater", "set", compiler="clang++-14"),
+    SSCfg("TR", 4, "stateful", 3, "greater", "flat", "basic", compiler="clang++-14"),
+    SSCfg("TC4", 4, "tless", 6, "less", "flat", "basic", compiler="clang++-14"),
+    SSCfg("TR", 8, "stateful", 4, "less", "set", "basic", compiler="clang++-14"),
+    SSCfg("NTR", 3, "tless", 5, "tless", "set", compiler="clang++-14"),
+    SSCfg("TC4", 4, "coarse", 6, "less", "set", "amc", compiler="clang++-14"),
+    SSCfg("NTR", 4, "greater", 2, "less", "flat", "basic", compiler="clang++-14"),
+    SSCfg("NTR", 3, "less", 5, "greater", "set", "exact", std="c++20", compiler="clang++-14"),
+]
+
+
+def fuzz_cfgs(kind, tier):
+    l = FUZZ_FS if kind == "fs" else FUZZ_SS
+    return l if tier == "thorough" else l[:2]
+
+
 def run_space(prop, tier, crash_owners):
     """complete small-scope exploration: the edge range of each configuration is split over the workers"""
     cfgs = SS_SPACE_QUICK + (SS_SPACE_THOROUGH if tier == "thorough" else [])
